@@ -48,6 +48,149 @@ func runC08(c *engine.Ctx, tier string) {
 	registryCleanup(c, "C08.4b", pkgStoreTxV2, 3)
 	// and the events themselves keep coming: the store's dispatcher survives a bad event
 	dispatcherLives(c, "C08.4c", pkgStoreTxV2, 1)
+	// a handler that could not subscribe, or could not build its answer, says so instead of waiting or answering half
+	for _, h := range []struct {
+		id, pkg string
+		paths   []*engine.Path
+		err     error
+		callees []string
+	}{
+		{"C08.5a", pkgNbGnmi, sp, err1, []string{"store/v2/transaction.Store.Watch", "northbound/gnmi/v2.newUpdateResult", "proto.Marshal"}},
+		{"C08.5b", pkgNbAdmin, rp, err2, []string{"store/v2/transaction.Store.Watch"}},
+	} {
+		if h.err != nil {
+			continue
+		}
+		for i, callee := range h.callees {
+			c.Outcome(engine.Outcome{ID: fmt.Sprintf("%s%d", h.id, i+1), Pkg: h.pkg, Min: 1, PathsOverride: h.paths,
+				When: "#everFailed(" + callee + ")", Returns: "err!=nil",
+				Why: "a failure of " + callee + " ends the request with an error: no waiting on a channel nobody feeds, no success with a missing result"})
+		}
+	}
+	if err1 == nil {
+		c.Guard(engine.Guard{ID: "C08.5a4", Pkg: pkgNbGnmi, Min: 1, PathsOverride: sp,
+			Sel: engine.Sel{Call: "append", Filter: func(p *engine.Path, i int) bool {
+				a := p.Events[i].Args
+				return len(a) == 2 && strings.Contains(a[1], ".newUpdateResult(")
+			}},
+			Require: "#ok(northbound/gnmi/v2.newUpdateResult)",
+			Why:     "an update result enters the response only when it could be built"})
+	}
+	responseFacts(c, sp, err1)
+	rollbackRecord(c, "C08.7", rp, err2)
+}
+
+// responseFacts: C08.6. The success response of Set lists what the logged transaction changed and
+// carries the extension by which the change can be found again.
+func responseFacts(c *engine.Ctx, paths []*engine.Path, err error) {
+	o := c.Custom("C08.6", "K-dataflow(response)", "Server.Set, success return: SetResponse.Response is the slice to which every newUpdateResult(path, target, op) of the created transaction's change was appended, and SetResponse.Extension holds a registered extension with Id TransactionInfoExtensionID and Msg = Marshal(TransactionInfo{ID, Index of the created transaction})",
+		"a successful Set response lists exactly the target/path pairs the request changed and carries the identifier and log index under which the change can be rolled back")
+	defer o.Done(1)
+	if err != nil {
+		o.Undecided("Server.Set", err.Error())
+		return
+	}
+	varName := func(s string) string { // ?name@Lnn'k → name ; make(...)@k → ""
+		if !strings.HasPrefix(s, "?") {
+			return ""
+		}
+		s = s[1:]
+		if i := strings.Index(s, "@"); i >= 0 {
+			s = s[:i]
+		}
+		return s
+	}
+	reported := map[string]bool{}
+	fail := func(p *engine.Path, msg string) {
+		if !reported[msg] {
+			reported[msg] = true
+			last := len(p.Events) - 1
+			o.Fail(&engine.Violation{Key: "Server.Set|" + msg, Pos: c.P.Pos(p.Events[last].Pos), Func: p.Root.Name(), Msg: msg})
+		}
+	}
+	for _, p := range paths {
+		last := &p.Events[len(p.Events)-1]
+		if last.Kind != engine.EvReturn || len(last.Results) != 2 || last.Results[1] != "nil" || last.Results[0] == "nil" {
+			continue
+		}
+		o.Eval(1)
+		var tx, resp, ext, appendTo string
+		appended, iterated := false, false
+		for i := range p.Events {
+			e := &p.Events[i]
+			switch {
+			case e.Kind == engine.EvCall && e.CalleeName == "store/v2/transaction.Store.Create" && len(e.Args) == 1:
+				tx = e.Args[0]
+			case e.Kind == engine.EvWrite && e.Field == "gnmi.SetResponse.Response":
+				resp = e.RHS
+			case e.Kind == engine.EvWrite && e.Field == "gnmi.SetResponse.Extension":
+				ext = e.RHS
+			case e.Kind == engine.EvCall && strings.HasSuffix(e.CalleeName, ".newUpdateResult"):
+				iterated = true
+			case e.Kind == engine.EvCall && e.CalleeName == "append" && len(e.Args) == 2 && strings.Contains(e.Args[1], ".newUpdateResult("):
+				appended = true
+				appendTo = e.Args[0]
+			}
+		}
+		if tx == "" {
+			fail(p, "a success response is returned on a path that created no transaction")
+			continue
+		}
+		o.Site("")
+		if iterated && !appended {
+			fail(p, "an update result is computed and not appended to the result list")
+		}
+		for i := range p.Events {
+			e := &p.Events[i]
+			if e.Kind == engine.EvCall && e.CalleeName == "append" && len(e.Args) == 2 && varName(e.Args[0]) != "" && varName(e.Args[0]) == varName(resp) && !strings.Contains(e.Args[1], ".newUpdateResult(") {
+				fail(p, "the result list receives "+c.Render(e.Args[1])+", which is not the update result of a changed path")
+			}
+		}
+		if appended {
+			a, r := varName(appendTo), varName(resp)
+			if a == "" && strings.HasPrefix(appendTo, "make(") {
+				a = "make"
+			}
+			if r == "" || (a != "make" && a != r) {
+				fail(p, "the response's result list ("+c.Render(resp)+") is not the list the update results were appended to ("+c.Render(appendTo)+")")
+			}
+		}
+		if resp == "" {
+			fail(p, "the success response carries no result list")
+		}
+		want := "Id:config/v2.TransactionInfoExtensionID,Msg:proto.Marshal(&config/v2.TransactionInfo{ID:" + tx + ".ID,Index:" + tx + ".Index}"
+		if !strings.Contains(ext, want) {
+			fail(p, "the success response does not carry the transaction-info extension (registered id TransactionInfoExtensionID, Msg = Marshal(TransactionInfo{ID, Index} of the created transaction))")
+		}
+	}
+}
+
+// rollbackRecord: what RollbackTransaction logs is a rollback of the index the caller named.
+func rollbackRecord(c *engine.Ctx, id string, paths []*engine.Path, err error) {
+	o := c.Custom(id, "K-dataflow(rollback record)", "Server.RollbackTransaction: the record given to transactions.Create has Details = Transaction_Rollback{Rollback{RollbackIndex: the request's Index}} and a SYNCHRONOUS strategy, and nothing else is created",
+		"the rollback request is answered about, and the controllers act on, exactly the index the caller asked to roll back")
+	defer o.Done(1)
+	if err != nil {
+		o.Undecided("Server.RollbackTransaction", err.Error())
+		return
+	}
+	for _, st := range engine.FindSites(paths, c.Match(engine.Sel{Call: "store/v2/transaction.Store.Create"})) {
+		e := st.Ev()
+		o.Site(c.P.Pos(e.Pos))
+		o.Eval(1)
+		arg := ""
+		if len(e.Args) == 1 {
+			arg = e.Args[0]
+		}
+		if !strings.Contains(arg, "Details:&config/v2.Transaction_Rollback{Rollback:&config/v2.RollbackTransaction{RollbackIndex:$RollbackRequest.Index}}") {
+			o.Fail(&engine.Violation{Key: "RollbackTransaction|rollback index", Pos: c.P.Pos(e.Pos), Func: "Server.RollbackTransaction",
+				Msg: "the logged record is not a rollback of the request's Index: " + c.Render(arg)})
+		}
+		if !strings.Contains(arg, "Synchronicity:config/v2.TransactionStrategy_SYNCHRONOUS") {
+			o.Fail(&engine.Violation{Key: "RollbackTransaction|synchronicity", Pos: c.P.Pos(e.Pos), Func: "Server.RollbackTransaction",
+				Msg: "the rollback is not logged as SYNCHRONOUS: the handler would answer at COMMITTED, before the device was restored"})
+		}
+	}
 }
 
 // waitTable evaluates the wait loop of a handler over Synchronicity × State.
@@ -175,6 +318,15 @@ func waitTable(c *engine.Ctx, id, name string, paths []*engine.Path, err error) 
 					if e := strings.Index(ctor, "("); e >= 0 {
 						ctor = ctor[:e]
 					}
+				}
+				if ctor == "" {
+					key := name + "|failed without error value"
+					if !reported[key] {
+						reported[key] = true
+						o.Fail(&engine.Violation{Key: key, Pos: c.P.Pos(last.Pos), Func: p.Root.Name(),
+							Msg: "a FAILED transaction is answered with " + c.Render(ret) + ", which carries no error constructed on this path: errors.Status(nil).Err() is nil, the caller would see success without a response"})
+					}
+					continue
 				}
 				if isNilFailure {
 					if ctor != "NewUnknown" {
